@@ -191,6 +191,8 @@ func c17alphabet(full bool) []Choice {
 			cs = append(cs, txB(fmt.Sprintf("dao_transfer(by=k%d,%d)", s, amt), chain.TxSpec{Msg: "dao_transfer", From: s, To: 0, Amount: amt}))
 			cs = append(cs, txB(fmt.Sprintf("dao_burn(by=k%d,%d)", s, amt), chain.TxSpec{Msg: "dao_burn", From: s, Amount: amt}))
 		}
+		// beyond the balance, to an address that has no account yet (nothing may remain of the attempt)
+		cs = append(cs, txB(fmt.Sprintf("dao_transfer(by=k%d,to a fresh address,1001)", s), chain.TxSpec{Msg: "dao_transfer", From: s, To: 14, Amount: 1001}))
 		// a transfer from the DAO account to the DAO account itself moves nothing
 		cs = append(cs, txB(fmt.Sprintf("dao_transfer(by=k%d,to the DAO account,250)", s), chain.TxSpec{Msg: "dao_transfer", From: s, To: chain.DAOIndex, Amount: 250}))
 		if full {
@@ -382,6 +384,15 @@ func RunGovHistory(cfg chain.Config, prelude, blocks []chain.Block) HistResult {
 			}
 			// --- every other store key ---
 			for _, d0 := range beforeDump.Diff(afterDump) {
+				if strings.HasPrefix(d0, "auth/01") && !ok {
+					// a rejected message: only the signer's account and the fee collector may have been written
+					hexA := strings.ToUpper(fmt.Sprintf("%X", []byte(sender)))
+					hexF := strings.ToUpper(fmt.Sprintf("%X", []byte(chain.FeeAddr)))
+					up := strings.ToUpper(d0)
+					if !strings.Contains(up, hexA) && !strings.Contains(up, hexF) {
+						report(fmt.Sprintf("%s|rejected-message-touched-another-account", t.Msg), fmt.Sprintf("%s at height %d (code %d): %s", t, dd.Height+1, tr.Code, d0))
+					}
+				}
 				if strings.HasPrefix(d0, "params/") || strings.HasPrefix(d0, "auth/") {
 					continue // judged above
 				}
